@@ -55,6 +55,14 @@ def gen_sequences(rng, tier):
                                 v = base[j] - 1
                         ns[j] = v
                     add("spikes<50", fam, res, ns, expect="exact500:%d" % first)
+                if n >= 8 and fam == "klm":
+                    # numbering from 0 (the lowest admissible KLM number): every entry lies BELOW its 1-based position
+                    base0 = list(range(0, n))
+                    ns = list(base0)
+                    for j in sorted(rng.sample(range(1, n), rng.randint(1, min(49, (n - 1) // 2)))):
+                        v = base0[j] + rng.choice([499, 500, 501, 1000, 5000, 9000])
+                        ns[j] = v if v < top else base0[j]
+                    add("spikes<50-from0", fam, res, ns, expect="exact500:0")
                 if n >= 400:
                     for k in (49, 50, 51, 120):
                         ns = list(base)
